@@ -13,7 +13,7 @@ File modification times come from a counter the harness owns (os.utime): every e
 Events (9): toggle python constant | toggle parameter table (extra parameter) | toggle the DEFAULT of a
 parameter that is never passed explicitly (Python-only edit, identical generated C) | toggle constant in the
 included C file | toggle an edit of kernel_iq.c | toggle a macro in kernel_header.c | toggle requested
-precision | load+evaluate in the long-running process | load+evaluate in a fresh process.
+precision (cycle double -> single -> quad) | load+evaluate in the long-running process | load+evaluate in a fresh process.
 Toggling twice restores the earlier text with a newer mtime ("revert").
 
 Oracle: the plug-in computes Iq = a*K_py*k_c()*VERIF_HDR*extra*(1+q), so the expected value is a closed
@@ -55,9 +55,10 @@ EVENTS = ["py", "tab", "dflt", "c", "tpl", "hdr", "dtype", "loadL", "loadF"]
 Q = [0.1, 0.5]
 A = 1.5
 K_PY = (2.0, 7.0)
-K_C = (5.0, 11.0)
+K_C = (5.0, 7.0)       # same text length: an edit need not change the file size
 K_HDR = (1.0, 3.0)
 B_DEFAULT = (1.0, 2.5)  # default of parameter b (never passed explicitly): a Python-only edit, same generated C
+DTYPES = [("double", "float64", 1e-12), ("single", "float32", 2e-6), ("quad", "float128", 1e-12)]
 CLOCKS = {"past": 1500000000, "future": 2200000000}   # edits stamped before / after the wall clock
 EXTRA = 4.0          # default of the optional extra parameter
 TPL_OLD = "            result[q_index] += weight * F2;"
@@ -128,13 +129,14 @@ class Tree(object):
         raise KeyError(which)
 
     def write(self, which):
-        self.clock += 1
+        self.clock += 0.25           # edits may follow each other within one second
         path = self.files[which]
         tmp = path + ".new"
         with open(tmp, "w") as fh:
             fh.write(self.text(which))
         os.replace(tmp, path)
-        os.utime(path, (self.clock, self.clock))
+        ns = int(round(self.clock * 4)) * 250000000
+        os.utime(path, ns=(ns, ns))
 
     def reset(self, regime="past"):
         self.bits = {k: 0 for k in self.bits}
@@ -166,6 +168,9 @@ class Tree(object):
                 os.remove(os.path.join(self.cache, f))
 
     def toggle(self, ev):
+        if ev == "dtype":
+            self.bits[ev] = (self.bits[ev] + 1) % 3      # double -> single -> quad -> double
+            return
         self.bits[ev] ^= 1
         if ev in ("py", "tab", "dflt"):
             self.write("py")
@@ -188,7 +193,7 @@ def _evaluate(tree):
     """load + evaluate in THIS process (whatever caches it has)"""
     from sasmodels import core
     from sasmodels.direct_model import call_kernel
-    dtype = "single" if tree.bits["dtype"] else "double"
+    dtype = DTYPES[tree.bits["dtype"]][0]
     model = core.load_model(tree.files["py"], dtype=dtype, platform="dll")
     kernel = model.make_kernel([np.array(Q)])
     vals = call_kernel(kernel, {"a": A, "scale": 1.0, "background": 0.0})
@@ -198,8 +203,7 @@ def _evaluate(tree):
 
 def _judge(tree, got, how, hist, agg):
     exp, pars = tree.expected()
-    single = bool(tree.bits["dtype"])
-    tol = 2e-6 if single else 1e-12
+    dname, want_dtype, tol = DTYPES[tree.bits["dtype"]]
     agg["loads"] += 1
     problems = []
     if "error" in got:
@@ -210,13 +214,12 @@ def _judge(tree, got, how, hist, agg):
             problems.append(("stale-value", "evaluated %r, current sources give %r" % (v, exp)))
         if got["pars"] != pars:
             problems.append(("stale-table", "model reports parameters %r, current table is %r" % (got["pars"], pars)))
-        want_dtype = "float32" if single else "float64"
         if got["dtype"] != want_dtype:
             problems.append(("wrong-precision", "model precision %s, requested %s" % (got["dtype"], want_dtype)))
-        owner = agg["libs"].setdefault(got["lib"], tree.key() + (" single" if single else " double"))
-        if owner != tree.key() + (" single" if single else " double"):
-            problems.append(("shared-library", "cached library %s used for [%s] and for [%s]"
-                             % (got["lib"], owner, tree.key() + (" single" if single else " double"))))
+        me = tree.key() + " " + dname
+        owner = agg["libs"].setdefault(got["lib"], me)
+        if owner != me:
+            problems.append(("shared-library", "cached library %s used for [%s] and for [%s]" % (got["lib"], owner, me)))
     for clause, msg in problems:
         if len(agg["fails"]) < 40:
             agg["fails"].append({"clause": clause, "how": how, "history": list(hist),
